@@ -952,6 +952,52 @@ def r10_member_names(rep, src, hdr):
             rep.ok('C06.R10', f.site, 'member name: ' + label, '%d symbolic cases' % cases)
 
 
+def r11_lookups(rep, src):
+    """every way of asking the archive for a member by name answers with the last member of that name (the statement), and asking
+    with a member object answers with that object: ArFile's lookups interpreted (sa.heap) on an archive with the members
+    [a, b, a'] -- two members of one name -- with the index the walk has built."""
+    from .. import heap as H
+    mod = src.mod(M)
+    lookups = [(q, fn) for q, fn in sorted(mod.funcs.items()) if q.startswith('ArFile.') and q.split('.')[1] in ('getmember', 'extractfile', '__getitem__')]
+    if len(lookups) < 2:
+        raise AnalysisError('%s: the lookups of ArFile (getmember, extractfile, __getitem__) were not found' % M)
+    for q, fn in lookups:
+        rep.saw_func(fn)
+        for asked in ('name of the repeated member', 'name of a single member', 'the first member object of the repeated name',
+                      'the last member object of the repeated name', 'an absent name'):
+            heap = H.Heap(mod)
+            a1 = heap.alloc('ArMember', {'_ArMember__name': 'a', 'name': 'a'}, name='@a_first')
+            b = heap.alloc('ArMember', {'_ArMember__name': 'b', 'name': 'b'}, name='@b')
+            a2 = heap.alloc('ArMember', {'_ArMember__name': 'a', 'name': 'a'}, name='@a_last')
+            members = heap.new_list([a1, b, a2])
+            index = heap.new_dict()
+            heap.dict_set(index, 'a', a2)
+            heap.dict_set(index, 'b', b)
+            me = heap.alloc('ArFile', {'_ArFile__members': members, '_ArFile__members_dict': index}, name='@archive')
+            arg, want = {'name of the repeated member': ('a', a2), 'name of a single member': ('b', b),
+                         'the first member object of the repeated name': (a1, a1), 'the last member object of the repeated name': (a2, a2),
+                         'an absent name': ('zz', None)}[asked]
+            if isinstance(arg, H.Ref) and q.split('.')[1] != 'extractfile':
+                continue        # only extractfile documents member objects as arguments
+            what = '%s(%s)' % (q, asked)
+            try:
+                got = H.Interp(heap).call(H.Closure(fn.node, {}, me, fn.cls), [arg])
+            except H.Raised as x:
+                got = ('raises', x.exc)
+            if want is None:
+                if got is None or got == ('raises', 'KeyError'):
+                    rep.ok('C06.R11', fn.site, what, 'None / KeyError', nontrivial=False)
+                else:
+                    rep.fail('C06.R11', fn.site, what, 'answers %r for a name no member has' % (got,), where=fn.where)
+            elif got == want:
+                rep.ok('C06.R11', fn.site, what, 'answers %s' % got.name)
+            else:
+                rep.fail('C06.R11', fn.site, what, 'on the members [a (first), b, a (last)] it answers %s; %s' % (
+                    got.name if isinstance(got, H.Ref) else got,
+                    'lookup by name returns the last member of that name (getmember does)' if isinstance(arg, str) else 'the member object handed in is another one'),
+                    where=fn.where)
+
+
 def check(src, rep, tier):
     rep.explanation = ('C06: (R1) for every data-returning call on the shared file object inside ArMember all CFG paths to the call are '
                        'enumerated and 0 ≤ size ≤ end−cur is proved from the guards/assignments on the path (difference-bound entailment, '
@@ -971,6 +1017,8 @@ def check(src, rep, tier):
     hdr = rep.guard('C06.R3', r3_header_table, src)
     rep.guard('C06.R4', r4_padding, src)
     rep.guard('C06.R5', r5_whence, src)
+    rep.need('C06.R11', 4)
+    rep.guard('C06.R11', r11_lookups, src)
     rep.need('C06.R9', 1)
     rep.guard('C06.R9', r9_readlines_hint, src)
     rep.need('C06.R10', 2)
